@@ -6,7 +6,7 @@ Driver for C18 (media proxy).  Op lines (see `harness/proxy/zz_verif_c18_proxy_t
 
 ```
 cfg <iss=key,…|->                                   -- token key table; first line of a case
-connect <c> | close <c> | sleep <ms> | expire | mcudown | mcuclose <n>
+connect <c> | close <c> | sleep <ms> | expire | mcudown | mcuclose <n> | release <c> <outcome>
 hello <c> tok <form> <alg> <signer> <mut> <iss> <iat> <nbf> <exp> <ver>
 hello <c> resume <kind> <n> <withtok>
 invalid <c> <kind>
@@ -18,7 +18,8 @@ payload <c> <n> <fwd|eoc|unsupported> <variant> <outcome>
 bye <c> | other <c> <type>
 ```
 
-Observation / prediction line: `out=<c:msg,…> S=<sid@c~ms[pubs/subs],…> C=<id(p|s),…> M=<id,…> K=<c,…>`.
+Observation / prediction line:
+`out=<c:msg,…> S=<sid@c~ms[pubs/subs],…> C=<id(p|s)@creator,…> M=<id@creator,…> K=<c,…>`.
 -/
 namespace SigModel.Driver.C18
 open SigModel.Proto SigModel.Proxy
@@ -63,8 +64,9 @@ def showSess (s : Sess) : String :=
 def showState (st : State) : String :=
   let ss := (sortNat (st.sessions.map (·.sid))).filterMap (fun sid => (findSess st sid).map showSess)
   let cl := (sortNat (st.clients.map (·.id))).filterMap (fun id =>
-    (findObj st.clients id).map fun o => s!"{o.id}{if o.isPub then "p" else "s"}")
-  let mc := (sortNat (st.mcuOpen.map (·.id))).map toString
+    (findObj st.clients id).map fun o => s!"{o.id}{if o.isPub then "p" else "s"}@{o.owner}")
+  let mc := (sortNat (st.mcuOpen.map (·.id))).filterMap (fun id =>
+    (findObj st.mcuOpen id).map fun o => s!"{o.id}@{o.owner}")
   let ks := (sortNat ((st.conns.filter (·.isOpen)).map (·.id))).map toString
   s!"S={commaJoin ss} C={commaJoin cl} M={commaJoin mc} K={commaJoin ks}"
 
@@ -74,6 +76,7 @@ def parseOutcome : String → Option Outcome
   | "ok" => some .ok
   | "fail" => some .fail
   | "timeout" => some .timeout
+  | "late" => some .late
   | _ => none
 
 def parseClaim (now : Int) (tok : String) : Option (Option Int) :=
@@ -106,6 +109,7 @@ def parseOp (now : Int) : List String → Option Op
   | ["expire"] => some .expire
   | ["mcudown"] => some .mcuDown
   | ["mcuclose", n] => do some (.mcuClose (← toNat? n))
+  | ["release", c, o] => do some (.release (← toNat? c) (← parseOutcome o))
   | "hello" :: c :: "tok" :: rest => do
     some (.msg (← toNat? c) (.hello (.token (← parseTok now rest))))
   | ["hello", c, "resume", kind, n, _withtok] => do
@@ -173,11 +177,19 @@ def parseSessObs (s : String) : Option SessObs :=
     | _, _ => none
   | _ => none
 
-def parseClientObs (s : String) : Option (Nat × Bool) :=
-  let cs := s.toList
-  match cs.reverse with
-  | 'p' :: r => (toNat? (String.ofList r.reverse)).map (·, true)
-  | 's' :: r => (toNat? (String.ofList r.reverse)).map (·, false)
+def parseClientObs (s : String) : Option (Nat × Bool × Nat) :=
+  -- <id>(p|s)@<owner>
+  match s.splitOn "@" with
+  | [hd, ow] =>
+    match hd.toList.reverse with
+    | 'p' :: r => do some ((← toNat? (String.ofList r.reverse)), true, (← toNat? ow))
+    | 's' :: r => do some ((← toNat? (String.ofList r.reverse)), false, (← toNat? ow))
+    | _ => none
+  | _ => none
+
+def parseMcuObs (s : String) : Option (Nat × Nat) :=
+  match s.splitOn "@" with
+  | [id, ow] => do some ((← toNat? id), (← toNat? ow))
   | _ => none
 
 def field (pre : String) (toks : List String) : Option String :=
@@ -187,7 +199,7 @@ def parseObs (toks : List String) : Option Obs := do
   let o ← parseOuts (← field "out=" toks)
   let ss ← (listOf (← field "S=" toks) ",").mapM parseSessObs
   let cl ← (listOf (← field "C=" toks) ",").mapM parseClientObs
-  let mc ← parseNats (← field "M=" toks) ","
+  let mc ← (listOf (← field "M=" toks) ",").mapM parseMcuObs
   let ks ← parseNats (← field "K=" toks) ","
   some { outs := o, sess := ss, clients := cl, mcu := mc, conns := ks }
 
